@@ -227,6 +227,43 @@ def gen_match_case(r, nmax, force=None):
     return c
 
 
+def gen_boundary_case(r):
+    """probes exactly at, just below and just above the smallest and the largest element of the first array (and of the
+    dtype): the clamp and the searchsorted ends"""
+    import math
+    kind = r.choice(["i8", "u8", "i4", "u1", "i1", "f8", "f4", "S", "U"])
+    pool = gen_pool(r, kind, r.choice(["small", "large"]), 8)
+    if len(pool) < 2:
+        kind = "i8"
+        pool = gen_pool(r, kind, "small", 8)
+    a1 = r.sample(pool, r.randrange(1, len(pool) + 1))
+    ks = sorted(a1, key=lambda v: key(kind, v))
+    lo, hi = ks[0], ks[-1]
+    probes = [lo, hi, lo, hi]
+    if kind in INT_KINDS:
+        dlo, dhi = INT_KINDS[kind]
+        probes += [max(dlo, lo - 1), min(dhi, hi + 1), dlo, dhi]
+    elif kind in FLOAT_KINDS:
+        import numpy as np
+        ft = np.float32 if kind == "f4" else np.float64
+        flo, fhi = ft(float.fromhex(lo)), ft(float.fromhex(hi))
+        with np.errstate(all="ignore"):
+          probes += [float(np.nextafter(flo, ft(-math.inf))).hex(), float(np.nextafter(fhi, ft(math.inf))).hex(),
+                   float(-math.inf).hex(), float(math.inf).hex(), float(np.nextafter(flo, ft(math.inf))).hex()]
+    else:
+        probes += [lo[:-1] if lo else lo, hi + [1], hi + [hi[-1]] if hi else [1], []]
+    r.shuffle(probes)
+    presorted = r.random() < 0.4
+    if presorted:
+        a1 = ks
+    else:
+        r.shuffle(a1)
+    return {"kind": kind, "a1": a1, "a2": probes[:r.randrange(3, len(probes) + 1)], "presorted": presorted, "scalar1": False,
+            "scalar2": False, "native": True, "range": "boundary",
+            "family": "boundary/%s%s" % ("int" if kind in INT_KINDS else ("float" if kind in FLOAT_KINDS else "string"),
+                                         "/presorted" if presorted else "")}
+
+
 def gen_scalar_case(r):
     c = gen_match_case(r, 6, force=r.choice(["none", "some", "all"]))
     which = r.choice(["first", "second", "both"])
@@ -337,6 +374,8 @@ class Match(Entry):
             cs += [dict(c) for c in fixed_match_cases()]
             for _ in range(ctx.n(60, 400)):
                 cs.append(gen_scalar_case(r))
+            for _ in range(ctx.n(60, 400)):
+                cs.append(gen_boundary_case(r))
         for _ in range(ctx.n(500, 6000) if round == 0 else ctx.n(300, 1500)):
             cs.append(gen_match_case(r, nmax))
         if self.multi:
@@ -1118,6 +1157,16 @@ def gen_history_case(r, quick=True):
                     st["seed"] = r.randrange(10**6)
                 steps.append(st)
         steps.append({"op": r.choice(["unique", "rem_dup"]), "arr": "D", "flag": "F", "values": r.choice([False, True])})
+    if r.random() < 0.5:                                    # aliasing / ownership: the caller scribbles over RETURNED arrays
+        out_steps = []
+        for st in steps:
+            out_steps.append(st)
+            if st["op"] in ("match", "match_multi", "unique", "rem_dup") and r.random() < 0.5:
+                out_steps.append({"op": "scribble", "how": r.choice(["zero", "reverse"])})
+            elif st["op"] in ("match", "match_multi") and kind == "i8" and r.random() < 0.4:
+                out_steps.append({"op": "match-ret"})
+        steps = out_steps
+        focus += "+alias"
     return {"kind": kind, "A": A, "B": B, "D": D, "F": F, "fdtype": dt, "steps": steps, "family": "history/%s/%s" % (
         focus, "int" if kind in INT_KINDS else ("float" if kind in FLOAT_KINDS else "string"))}
 
@@ -1175,12 +1224,18 @@ class History(Entry):
         def fl_vals(arr):
             return [float(x).hex() for x in arr.tolist()] if arr.dtype.kind == "f" else [int(x) for x in arr.tolist()]
 
+        last_ret = []                                       # numpy arrays RETURNED by the most recent call
+
         def do_match(fn, x1, x2, pres):
             m1, m2 = fn(x1, x2) if pres is None else fn(x1, x2, presorted=pres)
-            return [[int(i) for i in m1], [int(i) for i in m2]]
+            out = [[int(i) for i in m1], [int(i) for i in m2]]
+            last_ret[:] = [m1, m2]
+            return out
 
         def do_unique(arr, values):
-            res = np.atleast_1d(nu.unique(arr) if values is None else nu.unique(arr, values=values))
+            res0 = nu.unique(arr) if values is None else nu.unique(arr, values=values)
+            res = np.atleast_1d(res0)
+            last_ret[:] = [res0] if isinstance(res0, np.ndarray) else []
             if arr.dtype != np.dtype("i8"):
                 is_vals = res.dtype == arr.dtype
             else:
@@ -1192,10 +1247,14 @@ class History(Entry):
         def do_rem_dup(arr, fl, values):
             res = nu.rem_dup(arr, fl) if values is None else nu.rem_dup(arr, fl, values=values)
             vals = None
+            last_ret[:] = []
             if isinstance(res, tuple):
                 res, vals = res
                 vals = from_np(k, np.atleast_1d(vals))
-            return {"scalar": not isinstance(res, np.ndarray), "idx": [int(i) for i in np.atleast_1d(res)], "vals": vals}
+            out = {"scalar": not isinstance(res, np.ndarray), "idx": [int(i) for i in np.atleast_1d(res)], "vals": vals}
+            if isinstance(res, np.ndarray):
+                last_ret[:] = [res]
+            return out
 
         for i, st in enumerate(c["steps"]):
             op = st["op"]
@@ -1228,6 +1287,24 @@ class History(Entry):
                 rec["out"] = core.guarded(do_rem_dup, arr, fl, st["values"])
                 later.append((rec, lambda ca=ca, cf=cf, v=st["values"]: core.guarded(do_rem_dup, ca, cf, v)))
                 calls.append(rec)
+            elif op == "scribble":
+                # the caller owns what was returned: overwrite the returned arrays in place (a result that is a view of an
+                # argument or of something the module keeps would corrupt the next call)
+                for arr_ in last_ret:
+                    if isinstance(arr_, np.ndarray) and arr_.flags.writeable and arr_.size and not any(arr_ is v for v in slot.values()):
+                        if arr_.dtype.kind in "iuf":
+                            arr_[...] = arr_[::-1].copy() if st.get("how") == "reverse" else 0
+                        else:
+                            arr_[...] = arr_[::-1].copy()
+            elif op == "match-ret":
+                # a RETURNED index array used as the second argument of the next call (int64 kinds only)
+                if k == "i8" and last_ret and isinstance(last_ret[0], np.ndarray) and last_ret[0].dtype == np.dtype("i8") and last_ret[0].size:
+                    x1, x2 = slot["A"], last_ret[0]
+                    rec = {"step": i, "fn": "match", "a1": from_np(k, x1), "a2": from_np(k, x2), "presorted": False}
+                    c1, c2 = x1.copy(), x2.copy()
+                    rec["out"] = core.guarded(do_match, nu.match, x1, x2, False)
+                    later.append((rec, lambda c1=c1, c2=c2: core.guarded(do_match, nu.match, c1, c2, False)))
+                    calls.append(rec)
             else:                                           # a change of an argument object between calls
                 ref = st["ref"]
                 x = slot[ref]
@@ -1300,7 +1377,7 @@ class History(Entry):
                 if st["arr"] in dirty or st["flag"] in dirty:
                     changed_then_reused = True
                 seen.update([st["arr"], st["flag"]])
-            elif st["op"] in ("perm", "replace", "sort", "reverse", "rotate", "negate", "swap-inner", "dup") and st["ref"] in seen:
+            elif st["op"] in ("perm", "replace", "sort", "reverse", "rotate", "negate", "swap-inner", "dup") and st.get("ref") in seen:
                 dirty.add(st["ref"])
         return changed_then_reused and len(out["calls"]) >= 2
 
@@ -1308,7 +1385,78 @@ class History(Entry):
         return None
 
 
-ENTRIES = [Match(), MatchMulti(), MatchForms(), MatchMixed64(), MatchMixed64Agree(), Unique(), UniqueValues(), UniqueCall(), RemDup(), RemDupValues(), RemDupCall(), History()]
+class Scale(Entry):
+    """scale thresholds that are still legal: a second array of more than 2^16 elements (blocked processing with a remainder).
+    Judging 65 573 probes at once in Coq is quadratic in the checker, so the big call is compared (in python) with the
+    concatenation of the same call on consecutive blocks of 64 probes (position offsets added), and every BLOCK is judged in
+    Coq as usual (model = implementation, verified checker); first arrays of 1..9 elements and one of 300."""
+    name = "scale"
+    BLOCK = 64
+
+    def cases(self, ctx, round=0):
+        r = ctx.rng
+        cs = []
+        if round > 0:
+            return cs
+        for j in range(ctx.n(1, 6)):
+            kind = ["i8", "U", "f8", "u2", "S", "i4"][j % 6]
+            pool = gen_pool(r, kind, "small" if j % 2 == 0 else "large", 14)
+            if len(pool) < 4:
+                kind = "i8"
+                pool = gen_pool(r, kind, "small", 14)
+            a1 = r.sample(pool, r.randrange(1, min(9, len(pool) - 1) + 1))
+            total = 2 ** 16 + r.randrange(1, 300)
+            cs.append({"kind": kind, "a1": a1, "pool": pool, "n2": total, "seed": r.randrange(10**6), "presorted": j % 3 == 2,
+                       "multi": j % 4 == 3, "family": "scale/second-array>2^16/%s" % ("string" if is_str(kind) else "number")})
+        return cs
+
+    def _a2(self, c):
+        import random as _random
+        rr = _random.Random(c["seed"])
+        return [rr.choice(c["pool"]) for _ in range(c["n2"])]
+
+    def impl(self, c):
+        import esutil.numpy_util as nu
+        k = c["kind"]
+        a1 = sorted(c["a1"], key=lambda v: key(k, v)) if c["presorted"] else c["a1"]
+        a2 = self._a2(c)
+        fn = nu.match_multi if c["multi"] else nu.match
+        x1 = to_np(k, a1)
+        w2 = to_np(k, a2)
+
+        def call(x2):
+            m1, m2 = fn(x1, x2, presorted=c["presorted"])
+            return [[int(i) for i in m1], [int(i) for i in m2]]
+        big = core.guarded(call, w2)
+        blocks = []
+        for off in range(0, len(a2), self.BLOCK):
+            blocks.append(core.guarded(call, w2[off:off + self.BLOCK].copy()))
+        same = big[0] == "ok" and all(b[0] == "ok" for b in blocks)
+        if same:
+            cat1, cat2 = [], []
+            for bi, b in enumerate(blocks):
+                cat1 += b[1][0]
+                cat2 += [j + bi * self.BLOCK for j in b[1][1]]
+            same = (cat1 == big[1][0] and cat2 == big[1][1])
+        return {"a1": a1, "blocks": blocks, "big_equals_blocks": bool(same), "n_matched": len(big[1][1]) if big[0] == "ok" else -1}
+
+    def term(self, c, out):
+        k = c["kind"]
+        a2 = self._a2(c)
+        ts = []
+        for bi, b in enumerate(out["blocks"]):
+            blk = a2[bi * self.BLOCK:(bi + 1) * self.BLOCK]
+            ts.append("%s_matchx %s %s %s %s %s" % (pfx(k), cbool(c["presorted"]), cbool(c["multi"]), cvals(k, out["a1"]), cvals(k, blk),
+                                                   cres(b, lambda o: "(%s, %s)" % (cnats(o[0]), cnats(o[1])))))
+        if not out["big_equals_blocks"]:
+            ts.append("3%Z")          # the call on > 2^16 probes is not the concatenation of its blocks: some block-correct pair is missing/extra
+        return "(fold_right Z.lor 0%%Z [%s])" % "; ".join(ts)
+
+    def nontrivial(self, c, out):
+        return 0 < out["n_matched"] < c["n2"]
+
+
+ENTRIES = [Match(), MatchMulti(), MatchForms(), MatchMixed64(), MatchMixed64Agree(), Unique(), UniqueValues(), UniqueCall(), RemDup(), RemDupValues(), RemDupCall(), History(), Scale()]
 
 TRUSTED = [
     "Coq 8.16.1 kernel (coqc, vm_compute; no native_compute); all C06 theorems are closed under the global context (no axioms)",
